@@ -23,6 +23,7 @@ package main
 import (
 	"bytes"
 	"context"
+	"crypto/sha1"
 	"errors"
 	"fmt"
 	"io"
@@ -83,6 +84,12 @@ type torSpec struct {
 	shape  string // generator's label of what is odd about it ("wf" if nothing)
 	salt   int    // makes the info-hash differ between same-named torrents
 	mhash  string // magnet: the info-hash (hex) it announces ("" = a synthetic one)
+	// which of the variants of a field carries the value: see realize
+	nameMode, pathMode int
+	realized           bool
+	iname              string // intended name / paths, before the variants were chosen
+	ipaths             [][]string
+	rawMeta, rawInfo   []byte // the exact metainfo / info bytes (set by realize or by a replay)
 }
 
 type live struct {
@@ -92,17 +99,117 @@ type live struct {
 
 var table []live
 
+func decoyPath(i int) []string { return []string{"decoy", fmt.Sprintf("f%d", i)} }
+
+const decoyName = "decoy name"
+
+// meta builds the metainfo.  A torrent file may carry two variants of the name and of every
+// path ("name"/"name.utf-8", "path"/"path.utf-8"); the code prefers the utf-8 one when it is
+// present.  EVERY variant the code may prefer has to go through the validation, so the
+// generated (possibly ill-formed) value is put into each variant in turn:
+//
+//	pathMode 0 path only | 1 path.utf-8 only | 2 both equal | 3 path = well-formed decoy,
+//	path.utf-8 = value | 4 path = value, path.utf-8 = well-formed decoy (then the decoy is
+//	the file's path, whatever the value) | 5 path = value with a further defect, utf-8 = value
+//	nameMode 0 name only | 1 both equal | 2 name = decoy, name.utf-8 = value | 3 name = value,
+//	name.utf-8 = decoy (the decoy is the name) | 4 name empty, name.utf-8 = value
+//
+// realize() has replaced s.name / s.files[i].path by the EFFECTIVE values (what the torrent's
+// files are called), and keeps the generated ones in iname / ipaths.
 func (s *torSpec) meta() *nsgen.Meta {
 	m := &nsgen.Meta{Name: s.name, PieceLength: 16384 * (1 + s.salt)}
+	value := s.name
+	if s.realized {
+		value = s.iname
+	}
+	switch s.nameMode {
+	case 0:
+		m.Name = value
+	case 1:
+		m.Name, m.Name8, m.HasName8 = value, value, true
+	case 2:
+		m.Name, m.Name8, m.HasName8 = decoyName, value, true
+	case 3:
+		m.Name, m.Name8, m.HasName8 = value, decoyName, true
+	case 4:
+		m.Name, m.Name8, m.HasName8 = "", value, true
+	}
 	if s.kind == "single" {
 		m.Length = s.length
 	} else {
 		m.Files = []nsgen.File{}
-		for _, f := range s.files {
-			m.Files = append(m.Files, nsgen.File{Path: f.path, Length: f.length, Padding: f.pad})
+		for i, f := range s.files {
+			v := f.path
+			if s.realized {
+				v = s.ipaths[i]
+			}
+			nf := nsgen.File{Length: f.length, Padding: f.pad}
+			switch s.pathMode {
+			case 0:
+				nf.Path = v
+			case 1:
+				nf.NoPath, nf.Path8, nf.HasPath8 = true, v, true
+			case 2:
+				nf.Path, nf.Path8, nf.HasPath8 = v, v, true
+			case 3:
+				nf.Path, nf.Path8, nf.HasPath8 = decoyPath(i), v, true
+			case 4:
+				nf.Path, nf.Path8, nf.HasPath8 = v, decoyPath(i), true
+			case 5:
+				nf.Path, nf.Path8, nf.HasPath8 = append(append([]string{}, v...), ""), v, true
+			}
+			m.Files = append(m.Files, nf)
 		}
 	}
 	return m
+}
+
+// realize chooses the variants, computes the effective name and paths and the exact bytes.
+func (s *torSpec) realize(nameMode, pathMode int) {
+	if s.kind == "magnet" || s.realized {
+		return
+	}
+	s.nameMode, s.pathMode = nameMode, pathMode
+	if s.kind == "single" {
+		s.pathMode = 0
+	}
+	s.iname = s.name
+	s.ipaths = nil
+	for _, f := range s.files {
+		s.ipaths = append(s.ipaths, f.path)
+	}
+	s.realized = true
+	if s.nameMode == 3 {
+		s.name = decoyName
+	}
+	// `path: le` and an absent key both leave the slice nil: the other variant is used
+	for i := range s.files {
+		switch {
+		case s.pathMode == 4:
+			s.files[i].path = decoyPath(i)
+		case s.pathMode == 3 && len(s.ipaths[i]) == 0:
+			s.files[i].path = decoyPath(i)
+		case s.pathMode == 5 && len(s.ipaths[i]) == 0:
+			s.files[i].path = []string{""}
+		}
+	}
+	if s.nameMode != 0 || s.pathMode != 0 {
+		s.shape += fmt.Sprintf("+n%dp%d", s.nameMode, s.pathMode)
+	}
+	s.rebuild()
+}
+
+func (s *torSpec) rebuild() {
+	m := s.meta()
+	s.rawMeta, s.rawInfo = m.Torrent(), m.Info()
+}
+
+func (s *torSpec) infoHash() []byte {
+	if s.rawInfo == nil {
+		s.rebuild()
+	}
+	h := sha1.Sum(s.rawInfo)
+	return h[:]
 }
 
 func kill(t *tor.Torrent) {
@@ -154,7 +261,10 @@ func addTorrent(c *vhlib.Ctx, s torSpec) (bool, string) {
 			err = errors.New("not a magnet")
 		}
 	} else {
-		t, err = tor.ReadTorrent("", bytes.NewReader(s.meta().Torrent()))
+		if s.rawMeta == nil {
+			s.rebuild()
+		}
+		t, err = tor.ReadTorrent("", bytes.NewReader(s.rawMeta))
 	}
 	if err != nil {
 		return false, err.Error()
@@ -172,6 +282,13 @@ func addTorrent(c *vhlib.Ctx, s torSpec) (bool, string) {
 		s.length = off
 	}
 	table = append(table, live{s, t})
+	if s.shape != "wf" && s.shape != "replay" {
+		c.Count("accepted:"+s.shape, s.name, false)
+	}
+	if s.kind != "magnet" && (s.nameMode != 0 || s.pathMode != 0) {
+		// the exact bytes, so that a replay rebuilds the same variants
+		c.Emit("x meta "+vhlib.Hex(s.rawMeta), "x")
+	}
 	switch s.kind {
 	case "single":
 		c.Emit(fmt.Sprintf("new %s %s single %d", vhlib.Hex(t.Hash), hx(s.name), s.length), "ok")
@@ -205,8 +322,36 @@ type response struct {
 	panic string
 }
 
+// browserTarget: the request target a browser would send for a link: ASCII tab/CR/LF are
+// removed (URL standard), bytes that cannot appear in a request line are percent-encoded.
+func browserTarget(t string) string {
+	var b strings.Builder
+	for i := 0; i < len(t); i++ {
+		ch := t[i]
+		switch {
+		case ch == '\t' || ch == '\n' || ch == '\r':
+		case ch <= 0x20 || ch >= 0x7f || strings.IndexByte("\"<>`{}|\\^", ch) >= 0:
+			fmt.Fprintf(&b, "%%%02X", ch)
+		default:
+			b.WriteByte(ch)
+		}
+	}
+	return b.String()
+}
+
 func do(method, target string) response {
-	req := httptest.NewRequest(method, "http://"+hostHdr+target, nil)
+	// built by hand: httptest.NewRequest panics on targets a parser would refuse
+	target = browserTarget(target)
+	pathPart, query := target, ""
+	if i := strings.IndexByte(target, '?'); i >= 0 {
+		pathPart, query = target[:i], target[i+1:]
+	}
+	u := &url.URL{Path: pathPart, RawQuery: query}
+	if dec, err := url.PathUnescape(pathPart); err == nil {
+		u.Path, u.RawPath = dec, pathPart
+	}
+	req := &http.Request{Method: method, URL: u, Proto: "HTTP/1.1", ProtoMajor: 1, ProtoMinor: 1,
+		Header: http.Header{}, Body: http.NoBody, Host: hostHdr, RequestURI: target, RemoteAddr: "127.0.0.1:54321"}
 	// a HEAD of a file makes http.ServeContent sniff the content type, i.e. read data that
 	// no peer will ever deliver: give those requests an already-expired context (the reply
 	// headers do not depend on it); directory pages check ctx.Err() and need a live one
@@ -216,7 +361,6 @@ func do(method, target string) response {
 	}
 	defer cancel()
 	req = req.WithContext(rctx)
-	req.Host = hostHdr
 	rec := httptest.NewRecorder()
 	var r response
 	done := make(chan struct{})
@@ -910,7 +1054,10 @@ func lookupAll(c *vhlib.Ctx) {
 // through the real metadata path (resizeMetadata + gotMetadata -> MetadataComplete).
 func completeMagnet(c *vhlib.Ctx, full torSpec) bool {
 	l := cur()
-	info := full.meta().Info()
+	if full.rawInfo == nil {
+		full.rebuild()
+	}
+	info := full.rawInfo
 	size := uint32(len(info))
 	var done bool
 	var err error
@@ -941,6 +1088,9 @@ func completeMagnet(c *vhlib.Ctx, full torSpec) bool {
 	}
 	full.mhash = l.spec.mhash
 	l.spec = full
+	if full.nameMode != 0 || full.pathMode != 0 {
+		c.Emit("x info "+vhlib.Hex(info), "x")
+	}
 	if full.kind == "single" {
 		c.Emit(fmt.Sprintf("complete single %d", full.length), "ok")
 	} else {
@@ -977,11 +1127,16 @@ func runLifecycle(c *vhlib.Ctx, r *vhlib.Rand, which int) {
 	if full.kind == "single" && full.length == 0 {
 		full.length = 7
 	}
+	if r.Chance(40) {
+		full.realize(r.Intn(5), r.Intn(6))
+	} else {
+		full.realize(0, 0)
+	}
 	switch which % 3 {
 	case 0:
 		// a magnet looked up before its metadata is known, then completed
 		scenario = "magnet-complete"
-		ih := full.meta().InfoHash()
+		ih := full.infoHash()
 		if ok, why := addTorrent(c, torSpec{kind: "magnet", name: full.name, shape: "wf", mhash: vhlib.Hex(ih)}); !ok {
 			c.Count("rejected:lifecycle", why, false)
 			return
@@ -1024,16 +1179,19 @@ func runLifecycle(c *vhlib.Ctx, r *vhlib.Rand, which int) {
 		lookupAll(c)
 		other := genWF(r)
 		other.name = full.name
+		other.realize(0, 0)
 		best := -1
 		for salt := 1; salt <= 6; salt++ {
 			other.salt = salt
-			if bytes.Compare(other.meta().InfoHash(), first) < 0 {
+			other.rebuild()
+			if bytes.Compare(other.infoHash(), first) < 0 {
 				best = salt
 				break
 			}
 		}
 		if best < 0 {
 			other.salt = 1
+			other.rebuild()
 		}
 		if ok, _ := addTorrent(c, other); !ok {
 			return
@@ -1571,6 +1729,15 @@ func genIll(r *vhlib.Rand, shape string) torSpec {
 	return s
 }
 
+func tryUnHex(h string) (b []byte, ok bool) {
+	defer func() {
+		if recover() != nil {
+			b, ok = nil, false
+		}
+	}()
+	return vhlib.UnHex(h), true
+}
+
 func pick(r *vhlib.Rand, vs ...string) string { return vs[r.Intn(len(vs))] }
 
 // ---------------------------------------------------------------- one case
@@ -1677,6 +1844,16 @@ func runCase(c *vhlib.Ctx, r *vhlib.Rand, specs []torSpec) {
 	c.NewCase()
 	resetTable(c)
 	for i := range specs {
+		if !specs[i].realized {
+			nm, pm := 0, 0
+			if r.Chance(35) {
+				pm = r.Intn(6)
+			}
+			if r.Chance(25) {
+				nm = r.Intn(5)
+			}
+			specs[i].realize(nm, pm)
+		}
 		ok, why := addTorrent(c, specs[i])
 		if !ok {
 			c.Count("rejected:"+specs[i].shape, why, false)
@@ -1726,6 +1903,7 @@ func genCase(c *vhlib.Ctx, r *vhlib.Rand, i int) {
 func replay(c *vhlib.Ctx) {
 	scenario = "replay"
 	var pending *torSpec
+	var pendingMeta, pendingInfo []byte
 	pendingIsCompletion := false
 	flush := func() {
 		if pending != nil {
@@ -1759,12 +1937,21 @@ func replay(c *vhlib.Ctx) {
 		if f[0] != "file" {
 			flush()
 		}
-		needsCur := map[string]bool{"parms": true, "hget": true, "flookup": true, "freaddir": true, "fopen": true, "x": true, "complete": true}
-		if len(table) == 0 && needsCur[f[0]] {
+		needsCur := map[string]bool{"parms": true, "hget": true, "flookup": true, "freaddir": true, "fopen": true, "complete": true}
+		if len(table) == 0 && (needsCur[f[0]] || f[0] == "x" && len(f) == 2) {
 			c.Emit(l, "bad-op")
 			continue
 		}
 		switch {
+		case f[0] == "x" && len(f) == 3 && (f[1] == "meta" || f[1] == "info"):
+			c.Emit(l, "x")
+			if raw, ok := tryUnHex(f[2]); ok {
+				if f[1] == "meta" {
+					pendingMeta = raw
+				} else {
+					pendingInfo = raw
+				}
+			}
 		case f[0] == "reset":
 			c.NewCase()
 			resetTable(c)
@@ -1776,12 +1963,17 @@ func replay(c *vhlib.Ctx) {
 			if f[3] == "magnet" {
 				s.mhash = f[1]
 				s.salt = 0
+			} else if pendingMeta != nil {
+				s.rawMeta, pendingMeta = pendingMeta, nil
 			}
 			pending = &s
 		case f[0] == "complete" && len(f) >= 2:
 			s := torSpec{name: cur().spec.name, kind: f[1], shape: "replay"}
 			if f[1] == "single" && len(f) == 3 {
 				s.length, _ = strconv.ParseInt(f[2], 10, 64)
+			}
+			if pendingInfo != nil {
+				s.rawInfo, pendingInfo = pendingInfo, nil
 			}
 			pending, pendingIsCompletion = &s, true
 		case f[0] == "kill" && len(f) == 2:
@@ -1851,6 +2043,20 @@ func main() {
 	// one case per ill-formed shape first, then the mix
 	for _, sh := range illShapes {
 		runCase(c, c.R, []torSpec{genIll(c.R, sh)})
+		// the same defect in every variant of the field
+		isName := strings.HasPrefix(sh, "name-") || sh == "single-name-slash"
+		for mode := 1; mode <= 5; mode++ {
+			sp := genIll(c.R, sh)
+			if isName {
+				if mode == 5 {
+					continue
+				}
+				sp.realize(mode, 0)
+			} else {
+				sp.realize(0, mode)
+			}
+			runCase(c, c.R, []torSpec{sp})
+		}
 	}
 	for i := 0; i < c.N; i++ {
 		genCase(c, c.R, i)
